@@ -152,6 +152,104 @@ func prattTok(x zygo.Sexp, sb *strings.Builder, depth int) bool {
 	return true
 }
 
+// infixForms collects every pair whose head is the symbol infix or infixExpand (proper argument list).
+func infixForms(x zygo.Sexp, out *[]*zygo.SexpPair, depth int) {
+	if depth > 60 || len(*out) >= 12 {
+		return
+	}
+	switch v := x.(type) {
+	case *zygo.SexpPair:
+		if h, ok := v.Head.(*zygo.SexpSymbol); ok && (h.Name() == "infix" || h.Name() == "infixExpand") {
+			*out = append(*out, v)
+		}
+		infixForms(v.Head, out, depth+1)
+		infixForms(v.Tail, out, depth+1)
+	case *zygo.SexpArray:
+		for _, e := range v.Val {
+			infixForms(e, out, depth+1)
+		}
+	}
+}
+
+// infixFormCase dumps the arguments of an (infix ...) / (infixExpand ...) form the way InfixArgsToArray
+// looks at them and runs the real InfixArgsToArray + InfixExpandArray (what GenerateInfix / InfixBuilder do
+// before anything is generated or evaluated).
+func (w *worker) infixFormCase(form *zygo.SexpPair) (string, string, bool) {
+	name := form.Head.(*zygo.SexpSymbol).Name()
+	var args []zygo.Sexp
+	t := form.Tail
+	for {
+		p, ok := t.(*zygo.SexpPair)
+		if !ok {
+			break
+		}
+		args = append(args, p.Head)
+		t = p.Tail
+	}
+	if t != zygo.SexpNull || len(args) > 4 {
+		return "", "", false
+	}
+	var sb strings.Builder
+	if name == "infixExpand" {
+		sb.WriteString("G E")
+	} else {
+		sb.WriteString("G I")
+	}
+	for _, a := range args {
+		sb.WriteByte(' ')
+		switch v := a.(type) {
+		case *zygo.SexpArray:
+			sb.WriteString("AA ")
+			if !prattTok(v, &sb, 0) {
+				return "", "", false
+			}
+		case *zygo.SexpPair:
+			switch tl := v.Tail.(type) {
+			case *zygo.SexpSentinel:
+				sb.WriteString("PS")
+			case *zygo.SexpPair:
+				if arr, ok := tl.Head.(*zygo.SexpArray); ok {
+					sb.WriteString("PA ")
+					if !prattTok(arr, &sb, 0) {
+						return "", "", false
+					}
+				} else {
+					sb.WriteString("PO")
+				}
+			default:
+				sb.WriteString("PD")
+			}
+		case *zygo.SexpHash:
+			sb.WriteString("H")
+		default:
+			sb.WriteString("O")
+		}
+	}
+	if sb.Len() > 3000 {
+		return "", "", false
+	}
+	env := w.tieEnv
+	class, _ := guard(func() string {
+		arr, empty, err := zygo.InfixArgsToArray(name, args)
+		if err != nil {
+			return "err"
+		}
+		if empty {
+			return "ok:0"
+		}
+		ys, err := zygo.InfixExpandArray(env, arr)
+		if err != nil {
+			return "err"
+		}
+		return fmt.Sprintf("ok:%d", len(ys))
+	})
+	if class == ObsPanic {
+		class = "crash"
+		w.tieEnv = newEnv()
+	}
+	return sb.String(), class, true
+}
+
 // infixArrays collects the token array of every (infix [...]) block below x (nested blocks are
 // expanded by their own InfixExpandArray call when the generator reaches them).
 func infixArrays(x zygo.Sexp, out *[]*zygo.SexpArray, depth int) {
@@ -202,9 +300,17 @@ func (w *worker) prattObserve(src string, bare bool) [][2]string {
 			continue
 		}
 		var arrs []*zygo.SexpArray
+		var forms []*zygo.SexpPair
 		for _, x := range xs {
 			infixArrays(x, &arrs, 0)
+			infixForms(x, &forms, 0)
 		}
+		for _, f := range forms {
+			if shape, class, ok := w.infixFormCase(f); ok {
+				res = append(res, [2]string{shape, class})
+			}
+		}
+		env = w.tieEnv
 		for _, arr := range arrs {
 			var sb strings.Builder
 			sb.WriteString("Q")
